@@ -82,6 +82,13 @@ def model_value(m, v, st):
                 return {"$list": out}
             if isinstance(cell, CList):
                 return {"$list": [model_value(m, x, st) for x in cell.items]}
+            if isinstance(cell, AList):
+                n = m.eval(cell.n, model_completion=True).as_long()
+                out = []
+                for i in range(max(0, min(n, 8))):
+                    e = m.eval(z3.Select(cell.arr, i), model_completion=True)
+                    out.append(e.as_string() if cell.ek == STR else str(e))
+                return {"$list": out}
             if isinstance(cell, Map):
                 return {"$map": map_entries(m, cell)}
             if isinstance(cell, Ext):
@@ -142,7 +149,9 @@ def to_smt2(pc, goal):
 
 
 def run_cvc5(smt2, timeout_s):
-    text = smt2
+    import re as _re
+    # z3 prints applications of recursive functions as ((_ f 0) args): plain SMT-LIB for cvc5
+    text = _re.sub(r"\(_ ([A-Za-z_][\w!.]*) 0\)", r"\1", smt2)
     if "(set-logic" not in text:
         text = "(set-logic ALL)\n" + text
     with tempfile.NamedTemporaryFile("w", suffix=".smt2", delete=False) as f:
@@ -170,37 +179,47 @@ def discharge(ob, timeout_ms, use_cvc5=True, seeds=(0, 7)):
         ob.time = 0.0
         return
     last = None
-    for seed in seeds:
+
+    def try_z3(seed, budget):
         s = z3.Solver()
-        s.set("timeout", timeout_ms)
+        s.set("timeout", budget)
         s.set("random_seed", seed)
         for l in ob.pc:
             s.add(l)
         s.add(z3.Not(g))
         r = s.check()
-        if r == z3.unsat:
-            ob.status, ob.backend = "discharged", "z3"
-            ob.time = time.time() - t0
-            return
-        if r == z3.sat:
-            ob.status, ob.backend = "sat", "z3"
-            ob.model = s.model()
-            ob.time = time.time() - t0
-            return
-        last = s.reason_unknown()
-    if use_cvc5:
+        return r, s
+
+    def try_cvc5():
         try:
-            r = run_cvc5(to_smt2(ob.pc, g), timeout_ms / 1000.0)
+            return run_cvc5(to_smt2(ob.pc, g), timeout_ms / 1000.0)
         except Exception:
-            r = "unknown"
-        if r == "unsat":
-            ob.status, ob.backend = "discharged", "cvc5"
-            ob.time = time.time() - t0
-            return
-        if r == "sat":
-            ob.status, ob.backend = "sat", "cvc5"
-            ob.time = time.time() - t0
-            return
+            return "unknown"
+    # 1. a short z3 attempt; 2. cvc5 (decides most string obligations z3 leaves open); 3. z3 with the full budget, other seeds
+    plan = [("z3", seeds[0], min(timeout_ms, 2500))] + ([("cvc5", None, None)] if use_cvc5 else []) + [("z3", sd, timeout_ms) for sd in seeds]
+    for which, seed, budget in plan:
+        if which == "z3":
+            r, s = try_z3(seed, budget)
+            if r == z3.unsat:
+                ob.status, ob.backend = "discharged", "z3"
+                ob.time = time.time() - t0
+                return
+            if r == z3.sat:
+                ob.status, ob.backend = "sat", "z3"
+                ob.model = s.model()
+                ob.time = time.time() - t0
+                return
+            last = s.reason_unknown()
+        else:
+            r = try_cvc5()
+            if r == "unsat":
+                ob.status, ob.backend = "discharged", "cvc5"
+                ob.time = time.time() - t0
+                return
+            if r == "sat":
+                ob.status, ob.backend = "sat", "cvc5"
+                ob.time = time.time() - t0
+                return
     ob.status, ob.backend = "unknown", "z3+cvc5"
     ob.info["reason"] = str(last)
     ob.time = time.time() - t0
@@ -436,6 +455,8 @@ def same_cell(ca, cb):
         return z3.And(ca.arr == cb.arr, ca.dom == cb.dom)
     if isinstance(ca, SList) and isinstance(cb, SList):
         return ca.seq == cb.seq
+    if isinstance(ca, AList) and isinstance(cb, AList):
+        return z3.And(ca.arr == cb.arr, ca.n == cb.n)
     if isinstance(ca, Ext) and isinstance(cb, Ext):
         return z3.BoolVal(ca.name == cb.name)
     if isinstance(ca, CList) and isinstance(cb, CList) and len(ca.items) == len(cb.items):
